@@ -236,10 +236,31 @@ func S(s string) string {
 	}
 	return fmt.Sprintf("str_%d", i)
 }
+// Snapshots are hoisted the same way (`Definition snap_N : vt := ...`): histories mention the same snapshot many
+// times, and nested `let ... in` inside a case turned out to be very slow to elaborate.
+var snapTab = map[string]int{}
+var snapList []string
+
+func snapRef(term string) string {
+	i, ok := snapTab[term]
+	if !ok {
+		i = len(snapList)
+		snapTab[term] = i
+		snapList = append(snapList, term)
+	}
+	return fmt.Sprintf("snap_%d", i)
+}
+
 func strPrelude() string {
 	var sb strings.Builder
 	for i, s := range strList {
 		fmt.Fprintf(&sb, ".\nDefinition str_%d : string := \"%s\"%%string", i, strings.ReplaceAll(s, `"`, `""`))
+	}
+	for i, t := range snapList {
+		fmt.Fprintf(&sb, ".\nDefinition snap_%d : vt := %s", i, t)
+	}
+	for i, t := range valList {
+		fmt.Fprintf(&sb, ".\nDefinition val_%d : read_val := %s", i, t)
 	}
 	return sb.String()
 }
@@ -317,11 +338,24 @@ func opsCoq(ops []int) string {
 	}
 	return cw.L(p)
 }
+var valTab = map[string]int{}
+var valList []string
+
+// read values are hoisted too (`Definition val_N : read_val := ...`): repeated reads return the same value
 func valCoq(v readVal) string {
+	var t string
 	if v.IsLines {
-		return "(VLines " + SL(v.Lines) + ")"
+		t = "(VLines " + SL(v.Lines) + ")"
+	} else {
+		t = "(VMap " + oamapCoq(v.MapNil, v.Map) + ")"
 	}
-	return "(VMap " + oamapCoq(v.MapNil, v.Map) + ")"
+	i, ok := valTab[t]
+	if !ok {
+		i = len(valList)
+		valTab[t] = i
+		valList = append(valList, t)
+	}
+	return fmt.Sprintf("val_%d", i)
 }
 func valsCoq(vs []readVal) string {
 	p := make([]string, len(vs))
@@ -561,11 +595,7 @@ func runRead(stream string, ms []mapSpec, root *node, ops []int, arena bool) {
 		"kind": "reads", "tree": txt, "reads": opn, "arena_slices": arena,
 		"snapshot_before": snapTxt(s0), "snapshot_after": snapTxt(s1), "observed": obsT, "panic": pmsg,
 	}
-	c0, c1 := snapCoq(s0), snapCoq(s1)
-	if c1 == c0 {
-		c1 = "snap"
-	}
-	coq := fmt.Sprintf("(let snap := %s in CRead %s %s %s snap %s %s %s)", c0, heapCoq(ms), nodeCoq(root), opsCoq(ops), c1,
+	coq := fmt.Sprintf("CRead %s %s %s %s %s %s %s", heapCoq(ms), nodeCoq(root), opsCoq(ops), snapRef(snapCoq(s0)), snapRef(snapCoq(s1)),
 		valsCoq(obs), cw.B(pmsg != ""))
 	W.Add(cw.Case{Coq: coq, Desc: desc, Tags: tags,
 		Key:     hashKey(fmt.Sprintf("R|%s|%v|%v", txt, ops, arena)),
@@ -943,12 +973,14 @@ func runAdd(stream string, ms []mapSpec, a1, a2 *arg, same, arena bool) {
 		"e1_before": snapTxt(s1), "e2_before": snapTxt(s2), "panic": pmsg, "result_nil": res == nil && pmsg == "",
 		"result_before_reads": snapTxt(r0), "result_after_reads": snapTxt(r1), "reads_of_result": obsT,
 	}
-	cr0, cr1 := osnapCoq(r0), osnapCoq(r1)
-	if cr1 == cr0 {
-		cr1 = "snap"
+	osr := func(sn *snap) string {
+		if sn == nil {
+			return "None"
+		}
+		return "(Some " + snapRef(snapCoq(sn)) + ")"
 	}
-	coq := fmt.Sprintf("(let snap := %s in CAdd %s %s %s %s %s %s %s %s snap %s %s %s)", cr0, heapCoq(ms), c1, c2, cw.B(same), osnapCoq(s1), osnapCoq(s2),
-		cw.B(pmsg != ""), cw.B(res == nil && pmsg == ""), cr1, opsCoq(addOps), valsCoq(obs))
+	coq := fmt.Sprintf("CAdd %s %s %s %s %s %s %s %s %s %s %s %s", heapCoq(ms), c1, c2, cw.B(same), osr(s1), osr(s2),
+		cw.B(pmsg != ""), cw.B(res == nil && pmsg == ""), osr(r0), osr(r1), opsCoq(addOps), valsCoq(obs))
 	triv := a1.Kind <= aNilPtr || (!same && a2.Kind <= aNilPtr)
 	W.Add(cw.Case{Coq: coq, Desc: desc, Tags: tags,
 		Key: hashKey(fmt.Sprintf("A|%s|%s|%v|%v", t1, t2, same, arena)), Trivial: triv})
@@ -1016,6 +1048,366 @@ func (g *gen) randArg(r *rand.Rand, depth int) *arg {
 		}
 	}
 	return &arg{Kind: aVE, N: g.randNode(r, 1+r.Intn(3))}
+}
+
+
+// ---------- histories: reads and AddErrorToValidation calls interleaved on one running object ----------
+
+const (
+	hRead = iota
+	hReadChild
+	hAdd      // cur = AddErrorToValidation(cur, a)
+	hAddTo    // cur = AddErrorToValidation(a, cur)
+	hAddChild // AddErrorToValidation(cur.GetChildErrors()[..]..., a), result dropped
+)
+
+type hop struct {
+	Kind int
+	Op   int
+	Path []string
+	A    *arg
+}
+
+func pathCoq(p []string) string { return SL(p) }
+
+// descend follows child names through GetChildErrors
+func descend(v *verr.ValidationError, path []string) *verr.ValidationError {
+	for _, k := range path {
+		if v == nil {
+			return nil
+		}
+		v = v.GetChildErrors()[k]
+	}
+	return v
+}
+
+func argHasVE(a *arg) bool {
+	for a.Kind == aWrap || a.Kind == aFmtWrap {
+		a = a.Inner
+	}
+	return a.Kind == aVE
+}
+
+// runHist executes the history on the real code.  A step that is not applicable (running object nil, no such
+// child, or - a limit of the model, see notes - extending a child that lacks the map to be written) is DROPPED
+// from the history.  The history stops at the first panic.
+func runHist(stream string, ms []mapSpec, start *node, ops []hop, arena bool) {
+	w := mkWorld(ms, arena)
+	var cur *verr.ValidationError
+	startCoq, startTxt := "None", "nil"
+	if start != nil {
+		cur = realize(w, start)
+		startCoq, startTxt = "(Some "+nodeCoq(start)+")", nodeTxt(ms, start)
+	}
+	nm := func(sn *snap) string { return snapRef(snapCoq(sn)) }
+	onm := func(sn *snap) string {
+		if sn == nil {
+			return "None"
+		}
+		return "(Some " + nm(sn) + ")"
+	}
+	s0 := onm(snapshot(cur))
+	var opsC, obsC, steps []string
+	pmsg := ""
+	readBefore, readAddRead := false, false
+	added := false
+	for _, o := range ops {
+		if pmsg != "" {
+			break
+		}
+		switch o.Kind {
+		case hRead, hReadChild:
+			tgt := cur
+			if o.Kind == hReadChild {
+				tgt = descend(cur, o.Path)
+			}
+			if tgt == nil {
+				continue
+			}
+			b := snapshot(tgt)
+			val, pm := doRead(tgt, o.Op)
+			if o.Kind == hRead {
+				opsC = append(opsC, "(HRead "+opNames[o.Op]+")")
+			} else {
+				opsC = append(opsC, "(HReadChild "+pathCoq(o.Path)+" "+opNames[o.Op]+")")
+			}
+			if pm != "" {
+				pmsg = pm
+				obsC = append(obsC, "OPanic")
+				steps = append(steps, fmt.Sprintf("%s%v() PANIC %s", strings.Join(o.Path, "/"), opShort[o.Op], pm))
+				continue
+			}
+			a := snapshot(tgt)
+			obsC = append(obsC, fmt.Sprintf("(ORead %s %s %s)", nm(b), nm(a), valCoq(val)))
+			pre := "cur"
+			if o.Kind == hReadChild {
+				pre = "cur/" + strings.Join(o.Path, "/")
+			}
+			steps = append(steps, fmt.Sprintf("%s.%s() = %s", pre, opShort[o.Op], valTxt(val)))
+			if o.Op <= rFlatW {
+				if added && readBefore {
+					readAddRead = true
+				}
+				readBefore = true
+			}
+		case hAdd, hAddTo:
+			e2, inner := realizeArg(w, o.A)
+			ac := argCoq(o.A, e2)
+			sArg := snapshot(inner)
+			b := snapshot(cur)
+			var res *verr.ValidationError
+			func() {
+				defer func() {
+					if r := recover(); r != nil {
+						pmsg = "AddErrorToValidation: " + fmt.Sprint(r)
+					}
+				}()
+				if o.Kind == hAdd {
+					res = verr.AddErrorToValidation(cur, e2)
+				} else {
+					res = verr.AddErrorToValidation(e2, cur)
+				}
+			}()
+			if o.Kind == hAdd {
+				opsC = append(opsC, "(HAdd "+ac+")")
+			} else {
+				opsC = append(opsC, "(HAddTo "+ac+")")
+			}
+			if pmsg != "" {
+				obsC = append(obsC, "OPanic")
+				steps = append(steps, "AddErrorToValidation PANIC "+pmsg)
+				continue
+			}
+			cur = res
+			r := snapshot(cur)
+			obsC = append(obsC, fmt.Sprintf("(OAdd %s %s %s %s)", onm(b), onm(sArg), cw.B(cur == nil), onm(r)))
+			if o.Kind == hAdd {
+				steps = append(steps, fmt.Sprintf("cur = AddErrorToValidation(cur, %s)  => %s", argTxt(ms, o.A), snapTxt(r)))
+			} else {
+				steps = append(steps, fmt.Sprintf("cur = AddErrorToValidation(%s, cur)  => %s", argTxt(ms, o.A), snapTxt(r)))
+			}
+			added = true
+		case hAddChild:
+			c := descend(cur, o.Path)
+			if c == nil {
+				continue
+			}
+			cs := snapshot(c)
+			if cs.ENil || (argHasVE(o.A) && cs.WNil) {
+				continue // the call would assign a field of the child node: nodes are values in the model
+			}
+			e2, inner := realizeArg(w, o.A)
+			ac := argCoq(o.A, e2)
+			sArg := snapshot(inner)
+			b := snapshot(cur)
+			func() {
+				defer func() {
+					if r := recover(); r != nil {
+						pmsg = "AddErrorToValidation: " + fmt.Sprint(r)
+					}
+				}()
+				_ = verr.AddErrorToValidation(c, e2)
+			}()
+			opsC = append(opsC, "(HAddChild "+pathCoq(o.Path)+" "+ac+")")
+			if pmsg != "" {
+				obsC = append(obsC, "OPanic")
+				steps = append(steps, "AddErrorToValidation(child) PANIC "+pmsg)
+				continue
+			}
+			r := snapshot(cur)
+			obsC = append(obsC, fmt.Sprintf("(OAddChild %s %s %s)", nm(b), onm(sArg), nm(r)))
+			steps = append(steps, fmt.Sprintf("AddErrorToValidation(cur/%s, %s)  => cur = %s", strings.Join(o.Path, "/"), argTxt(ms, o.A), snapTxt(r)))
+			added = true
+		}
+	}
+	tag0 := "hist"
+	if pmsg != "" {
+		tag0 = "hist.panic"
+		panics[pmsg]++
+	}
+	tags := []string{tag0, "stream." + stream, fmt.Sprintf("hist.len%d", len(opsC))}
+	if readAddRead {
+		tags = append(tags, "hist.read-add-read")
+	}
+	if arena {
+		tags = append(tags, "arena-slices")
+	}
+	desc := map[string]any{"kind": "history", "start": startTxt, "steps": steps, "arena_slices": arena, "panic": pmsg}
+	coq := fmt.Sprintf("CHist %s %s %s %s %s", heapCoq(ms), startCoq, s0, cw.L(opsC), cw.L(obsC))
+	W.Add(cw.Case{Coq: coq, Desc: desc, Tags: tags,
+		Key: hashKey(fmt.Sprintf("H|%s|%v|%v", startTxt, steps, arena)), Trivial: !readAddRead})
+}
+
+// argument shapes for histories (fresh descriptions into g)
+func histArgs(g *gen) []func() *arg {
+	return []func() *arg{
+		func() *arg { return &arg{Kind: aPlainPtr, S: "plain " + g.msg()} },
+		func() *arg { return &arg{Kind: aVE, N: &node{Ctor: ctorNew, Ctx: "c", Msg: g.msg()}} },
+		func() *arg { return &arg{Kind: aVE, N: &node{Ctor: ctorNew, Ctx: "a.c", Msg: g.msg(), IsW: true}} },
+		func() *arg {
+			return &arg{Kind: aWrap, S: "ctx " + g.msg(), Inner: &arg{Kind: aVE, N: &node{Ctor: ctorErrs, Errs: g.newMap([]string{"c"}, []int{1}), Warns: -1,
+				Kids: []kid{{"a", &node{Ctor: ctorNew, Ctx: "c", Msg: g.msg(), IsW: true}}}}}}
+		},
+		func() *arg { return &arg{Kind: aNil} },
+		func() *arg { return &arg{Kind: aPlainVal, S: "val " + g.msg()} },
+	}
+}
+
+// start objects for histories: nil, a leaf, a tree whose children have both maps, a tree with nil maps
+func histStarts(g *gen) []func() *node {
+	return []func() *node{
+		func() *node { return nil },
+		func() *node { return &node{Ctor: ctorNew, Ctx: "c", Msg: g.msg()} },
+		func() *node {
+			return &node{Ctor: ctorWW, Errs: g.newMap([]string{"c", "a.c"}, []int{1, 1}), Warns: g.newMap([]string{"c"}, []int{1}),
+				Kids: []kid{{"a", &node{Ctor: ctorNew, Ctx: "c", Msg: g.msg()}},
+					{"b", &node{Ctor: ctorWW, Errs: g.newMap([]string{"c"}, []int{1}), Warns: g.newMap(nil, nil),
+						Kids: []kid{{"a", &node{Ctor: ctorNew, Ctx: "c", Msg: g.msg(), IsW: true}}}}}}}
+		},
+		func() *node {
+			return &node{Ctor: ctorErrs, Errs: -1, Warns: -1,
+				Kids: []kid{{"a", &node{Ctor: ctorWW, Errs: -1, Warns: g.newMap([]string{"c"}, []int{1}), KidsNil: true}}}}
+		},
+	}
+}
+
+func histCorpus() {
+	// the three sequences of seeded change C20-r2m2 (memoised flat maps not invalidated when a plain error is joined)
+	build := func(g *gen) *node {
+		g.ms = append(g.ms, mapSpec{{"Name", []string{"is required"}}}, mapSpec{{"Email", []string{"looks odd"}}})
+		return &node{Ctor: ctorWW, Errs: len(g.ms) - 2, Warns: len(g.ms) - 1,
+			Kids: []kid{{"Address", &node{Ctor: ctorNew, Ctx: "Zip", Msg: "is invalid"}}}}
+	}
+	plain := func() *arg { return &arg{Kind: aPlainPtr, S: "lookup failed"} }
+	{
+		g := &gen{}
+		runHist("corpus", g.ms, build(g), []hop{{Kind: hAdd, A: plain()}, {Kind: hRead, Op: rFlatE}, {Kind: hRead, Op: rError}}, false)
+	}
+	{
+		g := &gen{}
+		st := build(g)
+		runHist("corpus", g.ms, st, []hop{{Kind: hRead, Op: rError}, {Kind: hAdd, A: plain()}, {Kind: hRead, Op: rFlatE}, {Kind: hRead, Op: rError}}, false)
+	}
+	{
+		g := &gen{}
+		st := build(g)
+		runHist("corpus", g.ms, st, []hop{{Kind: hRead, Op: rFlatE}, {Kind: hRead, Op: rFlatW},
+			{Kind: hAdd, A: &arg{Kind: aVE, N: &node{Ctor: ctorNew, Ctx: "Phone", Msg: "too short"}}}, {Kind: hRead, Op: rError},
+			{Kind: hAdd, A: plain()}, {Kind: hRead, Op: rFlatE}, {Kind: hRead, Op: rFlatW}, {Kind: hRead, Op: rError}}, false)
+	}
+	{ // a child obtained through GetChildErrors is extended after the parent was read
+		g := &gen{}
+		st := build(g)
+		runHist("corpus", g.ms, st, []hop{{Kind: hRead, Op: rFlatE}, {Kind: hReadChild, Path: []string{"Address"}, Op: rError},
+			{Kind: hAddChild, Path: []string{"Address"}, A: &arg{Kind: aPlainPtr, S: "no such street"}},
+			{Kind: hRead, Op: rFlatE}, {Kind: hRead, Op: rError}, {Kind: hReadChild, Path: []string{"Address"}, Op: rFlatE}}, false)
+	}
+	{ // var ve *ValidationError; ve = AddErrorToValidation(ve, ...) accumulation from nil, logged in between
+		g := &gen{}
+		runHist("corpus", g.ms, nil, []hop{{Kind: hAdd, A: &arg{Kind: aNil}}, {Kind: hAdd, A: plain()}, {Kind: hRead, Op: rError},
+			{Kind: hAdd, A: &arg{Kind: aPlainVal, S: "second"}}, {Kind: hRead, Op: rError}, {Kind: hRead, Op: rFlatE}}, false)
+	}
+}
+
+func histExhaustive(thorough bool) int {
+	n := 0
+	reads := []int{rError, rFlatE, rFlatW}
+	nArgs := len(histArgs(&gen{}))
+	nStarts := len(histStarts(&gen{}))
+	// read; add; read   for every start, first read, argument shape, second read, and both argument positions
+	for st := 0; st < nStarts; st++ {
+		for _, r1 := range reads {
+			for a := 0; a < nArgs; a++ {
+				for _, r2 := range reads {
+					for _, kind := range []int{hAdd, hAddTo} {
+						if kind == hAddTo && !thorough && (st+a+r1+r2)%3 != 0 {
+							continue
+						}
+						g := &gen{}
+						start := histStarts(g)[st]()
+						runHist("exhaustive", g.ms, start, []hop{{Kind: hRead, Op: r1}, {Kind: kind, A: histArgs(g)[a]()}, {Kind: hRead, Op: r2},
+							{Kind: hRead, Op: rTopE}}, (n%2) == 1)
+						n++
+					}
+				}
+			}
+		}
+	}
+	// read; add; read; add; read-all   on the two tree starts (quick: a stripe)
+	for st := 1; st < nStarts; st++ {
+		for _, r1 := range reads {
+			for a1 := 0; a1 < nArgs; a1++ {
+				for _, r2 := range reads {
+					for a2 := 0; a2 < nArgs; a2++ {
+						if !thorough && (st+r1+a1+r2+a2)%5 != 0 {
+							continue
+						}
+						g := &gen{}
+						start := histStarts(g)[st]()
+						runHist("exhaustive", g.ms, start, []hop{{Kind: hRead, Op: r1}, {Kind: hAdd, A: histArgs(g)[a1]()}, {Kind: hRead, Op: r2},
+							{Kind: hAdd, A: histArgs(g)[a2]()}, {Kind: hRead, Op: rFlatE}, {Kind: hRead, Op: rFlatW}, {Kind: hRead, Op: rError}}, (n%2) == 1)
+						n++
+					}
+				}
+			}
+		}
+	}
+	// children: parent read; child read; child extended; parent and child read again
+	paths := [][]string{{"a"}, {"b"}, {"b", "a"}}
+	for _, p := range paths {
+		for _, r1 := range reads {
+			for a := 0; a < 3; a++ {
+				for _, r2 := range reads {
+					g := &gen{}
+					start := histStarts(g)[2]()
+					runHist("exhaustive", g.ms, start, []hop{{Kind: hRead, Op: r1}, {Kind: hReadChild, Path: p, Op: r1},
+						{Kind: hAddChild, Path: p, A: histArgs(g)[a]()}, {Kind: hRead, Op: r2}, {Kind: hReadChild, Path: p, Op: r2},
+						{Kind: hRead, Op: rError}}, (n%2) == 1)
+					n++
+				}
+			}
+		}
+	}
+	return n
+}
+
+func histRandom(r *rand.Rand, count int) {
+	for i := 0; i < count; i++ {
+		g := &gen{}
+		var start *node
+		if r.Intn(6) != 0 {
+			start = g.randNode(r, 1+r.Intn(3))
+		}
+		var ops []hop
+		for k, n := 0, 4+r.Intn(8); k < n; k++ {
+			switch x := r.Intn(10); {
+			case x < 4:
+				ops = append(ops, hop{Kind: hRead, Op: r.Intn(5)})
+			case x < 5:
+				ops = append(ops, hop{Kind: hReadChild, Path: randPath(r), Op: r.Intn(3)})
+			case x < 8:
+				ops = append(ops, hop{Kind: hAdd, A: g.randArg(r, 1)})
+			case x < 9:
+				ops = append(ops, hop{Kind: hAddTo, A: g.randArg(r, 1)})
+			default:
+				a := g.randArg(r, 0)
+				if a.Kind == aNilPtr {
+					a = &arg{Kind: aPlainPtr, S: g.msg()}
+				}
+				ops = append(ops, hop{Kind: hAddChild, Path: randPath(r), A: a})
+			}
+		}
+		runHist("random", g.ms, start, ops, r.Intn(2) == 0)
+	}
+}
+
+func randPath(r *rand.Rand) []string {
+	n := 1 + r.Intn(2)
+	p := make([]string, n)
+	for i := range p {
+		p[i] = childNames[r.Intn(len(childNames))]
+	}
+	return p
 }
 
 // ---------- corpus: the Findings/VErr.v witnesses, run first ----------
@@ -1091,6 +1483,7 @@ func main() {
 	r := rand.New(rand.NewSource(*seed))
 
 	corpus()
+	histCorpus()
 	nCorpus := len(W.Cases)
 
 	// exhaustive small scope: every top shape x every children configuration (depth <= 1), each with read
@@ -1175,8 +1568,17 @@ func main() {
 		runAdd("random", g.ms, a1, a2, same, r.Intn(2) == 0)
 	}
 
-	W.Extra["scope"] = fmt.Sprintf("corpus of %d witness histories; exhaustive: %d trees of depth <= 1 (7 top shapes x {nil, empty, a, a.b, a+a.b children} x 12 leaf shapes%s) each read with sequences drawn round-robin from all %d sequences of <= 3 reads applied twice; %d random trees of depth <= 4, fan-out <= 3; AddErrorToValidation on %d exhaustive argument pairs (menu of %d argument shapes squared + same-object) and %d random pairs",
-		nCorpus, nExh, map[bool]string{true: "", false: ", two-children configurations on a stripe of 1/4"}[thorough], len(seqs), nRand, nAddExh, len(argMenu(&gen{}, thorough)), nAddRand)
+	// histories: reads and AddErrorToValidation calls interleaved on one running object and its children
+	nHistExh := histExhaustive(thorough)
+	nHistRand := 150
+	if thorough {
+		nHistRand = 3000
+	}
+	histRandom(r, nHistRand)
+	W.Extra["history_cases"] = map[string]int{"exhaustive": nHistExh, "random": nHistRand}
+
+	W.Extra["scope"] = fmt.Sprintf("corpus of %d witness histories; exhaustive: %d trees of depth <= 1 (7 top shapes x {nil, empty, a, a.b, a+a.b children} x 12 leaf shapes%s) each read with sequences drawn round-robin from all %d sequences of <= 3 reads applied twice; %d random trees of depth <= 4, fan-out <= 3; AddErrorToValidation on %d exhaustive argument pairs (menu of %d argument shapes squared + same-object) and %d random pairs; histories (reads and AddErrorToValidation calls interleaved on one running object and its children): %d exhaustive (read;add;read over 4 starts x 3 reads x 6 argument shapes x 3 reads x 2 argument positions, read;add;read;add;read-all, parent/child read;extend-child;read) and %d random of 4..11 steps",
+		nCorpus, nExh, map[bool]string{true: "", false: ", two-children configurations on a stripe of 1/4"}[thorough], len(seqs), nRand, nAddExh, len(argMenu(&gen{}, thorough)), nAddRand, nHistExh, nHistRand)
 	W.Extra["read_sequences_available"] = len(seqs)
 	if len(panics) > 0 {
 		W.Extra["panics_observed"] = panics
